@@ -50,6 +50,10 @@ def short_extra(rng, rec):
     r = rng.random()
     page = rng.choice([gen.num(rng), "xii", "___", "iv", gen.num(rng)])
     tail = rng.choice([" because", ".", ", 7.", " (noting x).", " and", "; see", " n.3", "-" + gen.num(rng) + ".", ")"])
+    if r < 0.06:
+        # pin cites on both sides of an antecedent-introduced full citation
+        return (f"{gen.name(rng)} at {gen.num(rng)}, {gen.num(rng)} {gen.rep(rng)} {gen.num(rng)}, "
+                f"{gen.num(rng)}{rng.choice(['', '-' + gen.num(rng)])}{rng.choice(['.', ' (1999).', '; see'])}")
     if r < 0.12:
         # short form of ANY pattern of the database
         return f"{gen.name(rng)}, {gen.member(rng, short=True)}{tail}"
